@@ -13,7 +13,10 @@ redirect statuses without `Location`.  The fake connection serves EVERY host, so
 library following a redirect by itself) sends anywhere is captured and judged for the endpoint it was sent to.
 
 * direct oracle  = harness/ref/sigv4_verify.py (independent implementation of the published algorithm, hashlib/hmac only)
-  recomputes the signature FROM THE WIRE and checks the declared payload hash / content length against the body sent;
+  recomputes the signature FROM THE WIRE — in particular from the bytes of the `Host` header that is on the wire, whoever put it
+  there (httpx deriving it from the URL: lower-cased, default port dropped; or the adapter itself: the configured host verbatim) —
+  and checks the declared payload hash / content length against the body sent; the `Host` header must name the endpoint the
+  request was sent to (host part case-insensitively, port modulo the scheme's default: `EXAMPLE.com:443` names `example.com` over https);
 * correspondence = the compiled Lean model (`sigv4.sign`) is given the same inputs and must predict the request target,
   the Host header and the complete Authorization header (hence canonical request, string to sign, key chain, signature);
   the Lean *reference* (`sigv4.ref`, the definition the theorems compare the client with) must agree with the independent
@@ -169,9 +172,13 @@ def gen_token(r):
 
 HOSTS_NORMAL = [('http', 'localhost:9000'), ('https', 's3.example.com'), ('https', 'minio.internal:9443'), ('http', '127.0.0.1:9000'),
                 ('http', 'storage.local'), ('https', 'a-b.c-d.example.org:8443'), ('http', 'example.com:443'), ('https', 'example.com:80'),
-                ('https', 's3.eu-central-003.backblazeb2.com'), ('http', '[::1]:9000')]
+                ('https', 's3.eu-central-003.backblazeb2.com'), ('http', '[::1]:9000'), ('https', 'storage.example.com.'),
+                ('http', 'xn--bcher-kva.example:9000'), ('https', 'example.com.:8443')]
+# spellings that httpx normalises when IT derives the Host header from the URL (upper case, the scheme's default port); sent verbatim
+# — and then fine — by an adapter that sets the Host header itself
 HOSTS_D11 = [('https', 'S3.Example.COM'), ('https', 'example.com:443'), ('http', 'example.com:80'), ('http', 'LOCALHOST:9000'),
-             ('https', 'Minio.internal:9443')]
+             ('https', 'Minio.internal:9443'), ('https', 'Storage.Example.com.'), ('http', 'XN--Bcher-KVA.example'),
+             ('https', 'xn--Bcher-kva.Example:443'), ('http', '[::1]:80'), ('https', 'example.com.:443')]
 REGIONS = ['us-east-1', 'eu-west-1', 'ap-southeast-2', 'cn-north-1', 'us-gov-west-1', 'auto', 'garage', 'eu-central-003']
 
 
@@ -517,6 +524,25 @@ def classify(v, client_cr, mdl, cfg, call):
     return list(dict.fromkeys(sigs))
 
 
+def _host_port(scheme, netloc):
+    """'host', 'host:port', 'host:' (empty port, RFC 3986 §3.2.3), '[v6]', '[v6]:port' → (lower-case host part, port or the scheme's default)"""
+    h, sep, p = netloc.rpartition(':')
+    if sep and (p == '' or p.isdigit()) and h and not h.endswith(':') and (not h.startswith('[') or h.endswith(']')):
+        host, port = h, (int(p) if p else None)
+    else:
+        host, port = netloc, None
+    return host.lower(), (port if port is not None else c16_redirect.DEFAULT_PORT.get(scheme))
+
+
+def host_names_endpoint(scheme, host_header, endpoint):
+    """Does the `Host` header name the endpoint the request was sent to?  Host names are case-insensitive and `h:<default port of
+    the scheme>` is `h` (RFC 9110 §4.2.3, §7.2: `EXAMPLE.com:443` names `example.com` over https) — compared as (lower-case host part,
+    port-or-default), computed here from the two strings (no HTTP library involved)."""
+    if not host_header:
+        return False
+    return _host_port(scheme, host_header) == _host_port(scheme, endpoint)
+
+
 def follows_redirect(reqs, j):
     """request j went exactly where the redirect that answered request j-1 pointed"""
     prev = reqs[j - 1].fault if j > 0 else None
@@ -565,6 +591,9 @@ def evaluate(out, cfg, call, clk, reqs, res, mrep, refrep, payrep, retryrep=None
         if rq.endpoint_region is not None and (rq.scheme, rq.endpoint) != (cfg['scheme'], c16_redirect.netloc_of(cfg['scheme'], *c16_redirect.split_netloc(cfg['host']))):
             out.count('requests_at_an_endpoint_a_redirect_pointed_to')
         out.count('attempt:' + ('body-received-in-full' if rq.complete else 'broken-before-end-of-body'))
+        if cfg.get('host_class') == 'case-or-default-port':
+            out.count('host_header_on_the_wire:' + ('configured-host-verbatim' if rq.header('host') == [cfg['host']] else
+                                                     'normalised' if rq.header('host') == [rq.endpoint] else 'other'))
         m = mrep[j] if mrep is not None else None
         tie_ok = None
         if m is not None:
@@ -618,7 +647,8 @@ def evaluate(out, cfg, call, clk, reqs, res, mrep, refrep, payrep, retryrep=None
                 else:
                     out.traces_validated += 1
         # ---- direct oracle
-        if (rq.header('host') or [None]) != [rq.endpoint]:
+        hh = rq.header('host')
+        if len(hh) != 1 or not host_names_endpoint(rq.scheme, hh[0], rq.endpoint):
             out.count('rejected:s3:host-header-differs-from-endpoint')
             out.violation('s3:host-header-differs-from-endpoint', f'{rq.method} {rq.target.decode("latin-1")} was sent to {rq.scheme}://{rq.endpoint} with '
                           f'Host: {rq.header("host")} (request {j} of the call, {ctx})', dict(replay, request_index=j, wire=rq.as_dict()))
@@ -775,19 +805,33 @@ def encoder_checks(out, drv, gen, r, quick):
         else:
             out.traces_validated += 1
     # httpx host normalisation (the transport part of the model)
-    hosts = HOSTS_NORMAL + HOSTS_D11 + [('https', 'EXAMPLE.com:8443'), ('http', 'a.b:443'), ('https', 'h:'), ('http', 'xn--bcher-kva.example')]
+    # (a) the header httpx DERIVES from the URL (`httpxHost`), (b) an explicit `Host` header is kept verbatim and is the only one
+    # (`wireHost true`) — through a bare Request and through an AsyncClient's `build_request` (client default headers merged in)
+    hosts = HOSTS_NORMAL + HOSTS_D11 + [('https', 'EXAMPLE.com:8443'), ('http', 'a.b:443'), ('https', 'h:'), ('http', 'xn--bcher-kva.example'),
+                                        ('https', 'A.b.C.'), ('http', 'Xn--Bcher-Kva.Example.:80')]
     reps = drv.ask_many([{'op': 'sigv4.host', 'scheme': hx(sc), 'host': hx(h)} for sc, h in hosts])
+    client = httpx.Client()
     for (sc, h), rep in zip(hosts, reps):
         out.evaluations += 1
         try:
             sent = httpx.Request('GET', f'{sc}://{h}/x').headers['host']
+            rq_e = httpx.Request('GET', f'{sc}://{h}/x', headers={'host': h, 'x-amz-date': 'd'})
+            rq_c = client.build_request('PUT', f'{sc}://{h}/x', headers={'host': h, 'x-amz-date': 'd'}, content=b'x')
+            explicit = [[v.decode('latin-1') for n, v in q.headers.raw if n.lower() == b'host'] for q in (rq_e, rq_c)]
+            netloc = rq_e.url.netloc.decode('ascii')
         except Exception as e:  # noqa: BLE001
             out.count('httpx_rejects_host')
             continue
         if 'error' in rep or bytes.fromhex(rep['host']).decode() != sent:
             out.disagreement('Host header model differs from httpx', {'scheme': sc, 'host': h, 'httpx': sent, 'reply': rep})
+        elif explicit != [[bytes.fromhex(rep['explicit']).decode()]] * 2:
+            out.disagreement('httpx does not keep an explicit Host header verbatim (model: wireHost true)', {'scheme': sc, 'host': h, 'httpx': explicit, 'reply': rep})
+        elif not host_names_endpoint(sc, h, netloc) or not host_names_endpoint(sc, sent, netloc):
+            # the oracle's own reading of "names the endpoint" vs. where httpx connects to
+            out.disagreement('the configured host does not name the endpoint httpx connects to', {'scheme': sc, 'host': h, 'netloc': netloc, 'derived': sent})
         else:
             out.traces_validated += 1
+    client.close()
 
 
 def gen_consistency(out, gen):
@@ -991,7 +1035,9 @@ def run(out, drv, info):
                 'reply beyond 2xx / 4xx / 5xx: 301 / 302 / 303 / 307 / 308 with a Location — another path on the same origin, relative, query added, the same URL, '
                 'another host, another region\'s endpoint, another port, http → https, https → http — or 1xx / 300 / 304 / 305 / 306 / a redirect status without '
                 'Location; every request that reaches any endpoint behind the fake connection is judged for the endpoint it was sent to) × '
-                'configuration (S3 / S3-compatible, scheme, host, region, bucket, credentials) × patched clock (midnight, year boundary, leap day, '
+                'configuration (S3 / S3-compatible, scheme, host — lower-case names, other ports, IPv4 / IPv6 literals, a trailing dot, punycode; 6 % '
+                'of the S3-compatible ones spelled with upper-case letters (mixed-case punycode included) or with the scheme\'s default port —, region, bucket, '
+                'credentials) × patched clock (midnight, year boundary, leap day, '
                 'single-digit fields, random; advancing between requests); names / prefixes / tokens from replicat-shaped, plain, printable-special, '
                 'non-ASCII, mixed, structural (slashes, percent, dots) and dot-segment classes, plus a systematic sweep of every byte 0x20–0x7E and '
                 'non-ASCII code points in each position (name, prefix, token); evaluations are counted per captured request / encoder string; '
@@ -1004,7 +1050,8 @@ def run(out, drv, info):
                 'non-trivial = some name/prefix/token byte needs percent-encoding, or ≥ 3 pages, or a payload > 128 kB, or a retried call, or a stream whose reads are not all filled; '
                 'distinct = hash of (configuration, call, clock)')
     out.assumptions = ['hmac / sha256 are parameters of every theorem (ideal, arbitrary functions); their executable model is validated against hashlib here',
-                       'httpx (URL normalisation, Host header, header transmission) and urllib.parse are modelled, not verified; validated by the differential runs',
+                       'httpx (URL normalisation, the Host header it derives from the URL, an explicit Host header kept verbatim as the only one, header transmission) '
+                       'and urllib.parse are modelled, not verified; validated by the differential runs',
                        'the independent verifier (harness/ref/sigv4_verify.py) is trusted; it is checked on every run against the four published AWS examples',
                        'upload_stream: the stream is handed over at position 0 (all callers in replicat do; that every attempt starts from 0 again is proved from the generated try statement and explored by the fault plans)',
                        'upload_stream: the stream follows the file protocol — read(n) returns between 1 and n bytes before the end and an empty result only at the end, the same content on every pass '
@@ -1162,7 +1209,7 @@ def replay(path, drv):
     for j, rq in enumerate(reqs):
         v = sigv4_verify.verify(rq.method, rq.target, rq.headers, rq.body, secrets={cfg['key_id']: cfg['access_key']}, region=rq.endpoint_region or cfg['region'],
                                 server_now=rq.server_now, body_complete=rq.complete)
-        host_ok = (rq.header('host') or [None]) == [rq.endpoint]
+        host_ok = len(rq.header('host')) == 1 and host_names_endpoint(rq.scheme, rq.header('host')[0], rq.endpoint)
         body_ok = (call['call'] not in ('upload', 'upload_stream') or (rq.body == call['data'] if rq.complete else call['data'].startswith(rq.body)))
         print(f'request {j}: {rq.method} {rq.target.decode("latin-1")} sent_to={rq.scheme}://{rq.endpoint} Host={rq.header("host")} verifier_ok={v.ok} problems={v.problems} '
               f'body_ok={body_ok} content-length={rq.header("content-length")} body_bytes_received={len(rq.body)} body_complete={rq.complete} '
